@@ -29,6 +29,9 @@ if mods:
         'LbzVerif.Props.C07.corrupt_rejected_cleanly',
         'LbzVerif.Props.C07.block_error_is_fatal',
         'LbzVerif.Props.C07.truncated_stream_is_error',
+        'LbzVerif.Props.C07.File.damaged_rejected',
+        'LbzVerif.Props.C07.File.rejected_iff',
+        'LbzVerif.Props.C07.File.damaged_never_terminates',
     ])
 exe = ck.build_lbzip2(asan=False)
 exe_asan = None if ck.quick else ck.build_lbzip2('lbzip2-asan', asan=True,
